@@ -52,9 +52,22 @@ def build_object(spec, shared):
         if ft is None:
             ft = shared['ft'] = T.mk_field_types()
         recs = [tuple(r) for r in spec['recs']]
+        if kind == 'table' and 'base_spec' in spec:
+            # a table that takes its format from the format object of another table of the scenario (in the
+            # history that table lives long and is rendered too, in the reference it is new and never rendered)
+            base = shared.setdefault('tables', {}).get(spec['base_spec']['tid'])
+            if base is None:
+                base = build_object(spec['base_spec'], shared)
+            return PPTable(recs, fmt_obj=base.fmt, header=spec.get('header'), footer=spec.get('footer'))
         if kind == 'table':
-            return PPTable(recs, fields=T.FIELDS, fmt=spec['fmt'], header=spec.get('header'),
-                           footer=spec.get('footer'), fields_types=ft)
+            titles = spec.get('titles')
+            if titles:
+                titles = {k: unjson(v) for k, v in titles.items()}
+            tbl = PPTable(recs, fields=T.FIELDS, fmt=spec['fmt'], header=spec.get('header'),
+                          footer=spec.get('footer'), fields_types=ft, fields_titles=titles)
+            if 'tid' in spec:
+                shared.setdefault('tables', {})[spec['tid']] = tbl
+            return tbl
         return PPRecordFmt(spec['fmt'], fields=T.FIELDS, fields_types=ft)
     if kind == 'ghist':
         repo = mg.rebuild(spec['repo'])
